@@ -1,10 +1,11 @@
+pub mod c06;
 pub mod c11;
 pub mod histchecks;
 
 use crate::frame::CheckDef;
 
 pub fn all() -> Vec<CheckDef> {
-    let mut v = vec![c11::def()];
+    let mut v = vec![c06::def(), c11::def()];
     v.extend(histchecks::defs());
     v.sort_by_key(|d| d.property);
     v
